@@ -35,6 +35,10 @@ pub struct Profile {
     pub hs_failures: bool,
     /// only acknowledgements that match something live
     pub acks_live_only: bool,
+    /// local publishes may use an alias with an empty topic
+    pub alias_use: bool,
+    /// the peer (almost) always announces a small Receive Maximum (v5)
+    pub rm_small: bool,
 }
 
 impl Profile {
@@ -60,6 +64,8 @@ impl Profile {
             max_segments: 3,
             hs_failures: true,
             acks_live_only: false,
+            alias_use: true,
+            rm_small: false,
         }
     }
 }
@@ -106,10 +112,11 @@ pub fn body_op(p: Profile, as_client: bool, v5: bool, hostile: BoxedStrategy<Op>
     let s = if p.acks_live_only { sel_live() } else { sel() };
     let mut alts: Vec<(u32, BoxedStrategy<Op>)> = Vec::new();
     let am = if v5 { alias_mode(p.max_alias) } else { Just(AliasMode::None).boxed() };
+    let am_local = if p.alias_use { am.clone() } else { am.clone().prop_map(|a| if let AliasMode::Use(_) = a { AliasMode::None } else { a }).boxed() };
     if p.publish > 0 {
         alts.push((
             w(p.publish),
-            (0u8..=2, 0u8..4, am.clone(), 0u8..6, any::<bool>(), id_src())
+            (0u8..=2, 0u8..4, am_local, 0u8..6, any::<bool>(), id_src())
                 .prop_map(|(qos, topic, alias, plen, retain, id)| Op::Publish { qos, topic, alias, plen, retain, id })
                 .boxed(),
         ));
@@ -212,6 +219,7 @@ enum End {
 /// ops a contract-respecting application may issue while disconnected
 fn offline_op(p: Profile, v5: bool) -> BoxedStrategy<Op> {
     let am = if v5 { alias_mode(p.max_alias) } else { Just(AliasMode::None).boxed() };
+    let am = if p.alias_use { am } else { am.prop_map(|a| if let AliasMode::Use(_) = a { AliasMode::None } else { a }).boxed() };
     prop_oneof![
         3 => opt_strategy().prop_map(Op::SetOpt),
         3 => (0u8..=2, 0u8..4, am, 0u8..6, any::<bool>(), id_src()).prop_map(|(qos, topic, alias, plen, retain, id)| Op::Publish { qos, topic, alias, plen, retain, id }),
@@ -242,8 +250,17 @@ fn segment(p: Profile, cfg: ConnCfg, as_client: bool, hostile: BoxedStrategy<Op>
         proptest::collection::vec(body_op(p, as_client, v5, hostile), 0..p.max_body),
         end,
         0u8..4,
+        0u16..8,
     )
-        .prop_map(move |(pre, ca, mut ka, fail, body, end, chunk)| {
+        .prop_map(move |(pre, mut ca, mut ka, fail, body, end, chunk, small)| {
+            if p.rm_small && v5 && small < 7 {
+                // the limit that applies to what this object sends is announced by the peer
+                if as_client {
+                    ka.p.rm = Some(1 + small % 3);
+                } else {
+                    ca.p.rm = Some(1 + small % 3);
+                }
+            }
             let mut ops = pre;
             if !fail {
                 ka.fail = 0;
